@@ -118,7 +118,7 @@ def run(ctx, crate):
     obs.append(Ob("R14.unknown", "main", "options are resolved before any analysis or report", ok, expected="Opts::new dominates analyze_dir x3 and generate_report",
                   found=[s.path for s in later]))
     # ---------------- R14.applied: what was selected is what is analysed: main hands each category's list and the directory of the resolved options,
-    # unmodified, to that category's walk, and the walk applies every listed pattern to every file (C03's obligations on the per-file loop)
+    # unmodified, to that category's walk, and the walk applies every listed pattern to every file (C03's obligations on the per-file loop and on what the nested walk is handed)
     from rules import depend
     for cat, fld in (("optimizations", "optimizations"), ("vulnerabilities", "vulnerabilities"), ("qa", "qa")):
         calls = [s for s in ms if s.path == "analyzer::%s::analyze_dir" % cat]
@@ -132,7 +132,7 @@ def run(ctx, crate):
         obs.append(Ob("R14.applied", "main", "%s: the walk receives the resolved directory and exactly the selected list" % cat, ok_h,
                       expected="analyze_dir(opts.path, opts.%s)" % fld, found=found_h, example="a configuration listing two patterns in the opposite order"))
     obs.append(depend.inherited(ctx, crate, "R14.applied", "analyze_dir x3", "every listed pattern is applied to every analysed file, whatever the order of the list "
-                                "(C03's obligations on the per-file loop)", "C03", lambda o: o.rule in ("R03.perfile", "R03.loops"),
+                                "(C03's obligations on the per-file loop and on what the nested walk is handed)", "C03", lambda o: o.rule in ("R03.perfile", "R03.loops", "R03.recurse"),
                                 example="optimizations = [\"safe_math_pre_080\", \"address_zero\"] versus the reverse order"))
     # ---------------- R14.select / R14.fields / R14.path
     sites = S.call_sites(on)
